@@ -195,6 +195,7 @@ func GenConfig(t *rapid.T, p *Profile) Config {
 	}
 	c.InitCap = pick(t, "initcap", 0, 0, 1, 7, 16, 100, 5000)
 	c.Stats = p.Stats || rapid.IntRange(0, 3).Draw(t, "stats") == 0
+	c.PlainRecorder = c.Stats && rapid.IntRange(0, 3).Draw(t, "plainrecorder") == 0
 	origins := []int64{0, 1, 1_000_000_000, 1_700_000_000_000_000_000}
 	if p.ExtremeDur {
 		origins = append(origins, 1<<62)
